@@ -223,7 +223,7 @@ func (r *Report) finish(known []KnownFinding, info runInfo) int {
 	}
 	cov := map[string]any{
 		"explanation": "Static analysis of /repo's current working tree (go/packages + go/ssa, no execution). Each obligation is one instance of a structural rule " +
-			"(a necessary condition of " + r.Prop + ") on one construct; see DESIGN.md section 4 for what the rules do not cover. " + strings.Join(r.notes, " "),
+			"(a necessary condition of " + r.Prop + ") on one construct; see DESIGN.md sections 4, 9 and Part II. NOT decided by this check: " + notDecided[r.Prop] + " " + strings.Join(r.notes, " "),
 		"obligations":         len(r.Obs),
 		"discharged":          discharged,
 		"evaluations":         len(r.Obs),
